@@ -338,6 +338,53 @@ func checkTransportWriter(p *Prog, r *Report, ru *Rule) {
 	if n < 2 {
 		ru.Unproven("handlers:writer", token.NoPos, "%d stream writers found in the handlers, at least 2 expected", n)
 	}
+	/* And on the way to the handlers: whatever is wrapped around the mux (a
+	counting or logging middleware) and hands on a writer of its own must
+	hand on one which still offers FlushError — the input proxy picks its
+	flush by type assertion on what it is given. */
+	for _, fn := range p.Funcs() {
+		if nil == fn.Pkg || !strings.HasSuffix(fn.Pkg.Pkg.Path(), hsrvPkg) {
+			continue
+		}
+		eachInstr(fn, func(i ssa.Instruction) {
+			cc := callCommon(i)
+			if nil == cc || len(cc.Args) < 1 {
+				return
+			}
+			var w ssa.Value
+			switch {
+			case cc.IsInvoke() && "ServeHTTP" == cc.Method.Name() && 2 == len(cc.Args):
+				w = cc.Args[0]
+			case !cc.IsInvoke() && strings.HasSuffix(calleeName(cc), ").ServeHTTP") && 3 == len(cc.Args):
+				w = cc.Args[1]
+			default:
+				return
+			}
+			if !typeIs(w.Type(), "net/http", "ResponseWriter") {
+				return
+			}
+			x := stripConv(resolveCell(w), false)
+			if wp, ok := x.(*ssa.Parameter); ok && typeIs(wp.Type(), "net/http", "ResponseWriter") {
+				return /* handed on as received */
+			}
+			if _, ok := resolveFree(x).(*ssa.Parameter); ok && typeIs(x.Type(), "net/http", "ResponseWriter") {
+				return
+			}
+			c := fmt.Sprintf("%s→ServeHTTP:writer", fnName(fn))
+			ms := p.SSA.MethodSets.MethodSet(x.Type())
+			has := false
+			for m := 0; m < ms.Len(); m++ {
+				if "FlushError" == ms.At(m).Obj().Name() {
+					has = true
+				}
+			}
+			if has {
+				ru.OK(c, posOf(i), "the wrapped writer (%s) offers FlushError", x.Type())
+			} else {
+				ru.Bad(c, posOf(i), "the handlers are given a %s wrapped around the real ResponseWriter, and it has no FlushError method: the input proxy falls back to http.Flusher.Flush, which cannot report failure, so a failed flush counts as delivery (and is logged as sent) and the lines after it are lost too", x.Type())
+			}
+		})
+	}
 }
 
 // checkFullDuplex: for each route whose handler calls ConnectInOut, a call of
